@@ -606,3 +606,77 @@ def check_falsy_numeric_default(ctx, fi, rule='R-IDIOM/falsy-numeric-default'):
                  f'`{unparse(first)[:40]}` is falsy: a requested value of 0 '
                  'is silently replaced as well')
     return n
+
+
+SELECTORS = ('downsample', 'subset', 'cull', 'thin', 'mask_indptr',
+             'select_rows', 'select_columns')
+
+
+def check_returns_depend_alike(ctx, fi, rule='R-AGREE/returns-depend-alike'):
+    """(applied to the functions that carry out a *selection* -- names
+    starting with downsample / subset / cull / thin / mask_indptr -- where
+    the selection has to shape every output.)  Sibling returns of one
+    function answer the same question.  When a
+    function returns tuples on several paths, position i is computed from
+    the same inputs on each of them; a return in which position i no
+    longer depends on a parameter that position i depends on in the main
+    return -- a shortcut that copies an input through, say -- is right
+    only under an assumption the shortcut does not check (that the
+    selection was sorted, complete, contiguous).  Returns that are empty
+    displays / constants in that position (nothing to do) and parameters
+    the shortcut's own guard tests for None are not judged."""
+    from ..core.cfg import cfg_of
+    from ..core.defuse import rd_of
+    from ..core.slicing import backward_slice
+    cfg = cfg_of(fi)
+    rd = rd_of(fi)
+    if not fi.name.lstrip('_').startswith(SELECTORS):
+        return 0
+    rets = [n_ for n_ in cfg.nodes if n_.kind == 'return'
+            and n_.id in rd.live and n_.ast is not None
+            and isinstance(n_.ast.value, ast.Tuple)]
+    if len(rets) < 2:
+        return 0
+    k = {len(r.ast.value.elts) for r in rets}
+    if len(k) != 1:
+        return 0
+    k = k.pop()
+    params = set(fi.params) - {'self', 'cls'}
+    deps = []
+    for r in rets:
+        row = []
+        for e in r.ast.value.elts:
+            if isinstance(e, ast.Constant) or _empty_display(e):
+                row.append(None)
+                continue
+            try:
+                sl = backward_slice(fi, e, r.id)
+            except Exception:
+                row.append(None)
+                continue
+            row.append(set(sl.params) & params)
+        deps.append(row)
+    n = 0
+    # the main return: the last one in the source
+    main = max(range(len(rets)), key=lambda i: getattr(
+        rets[i].ast, 'lineno', 0))
+    for i, r in enumerate(rets):
+        if i == main:
+            continue
+        for pos in range(k):
+            a, b = deps[i][pos], deps[main][pos]
+            if a is None or b is None:
+                continue
+            missing = b - a
+            if not missing or not a:
+                continue
+            n += 1
+            ctx.touch(fi)
+            ctx.fail(rule, f'{fi.qual}:return@{pos}#{n - 1}',
+                     fi.loc(r.ast),
+                     f'`{unparse(r.ast)[:60]}`: position {pos} is computed '
+                     f'without {sorted(missing)}, which it depends on in '
+                     f'`{unparse(rets[main].ast)[:40]}`: the shortcut is '
+                     'right only if those inputs make no difference '
+                     '(sorted, complete, contiguous), which nothing checks')
+    return n
